@@ -1,4 +1,12 @@
-from formulae.terms import Variable, Call, Term, Intercept, NegatedIntercept, Response
+from formulae.terms import (
+    Variable,
+    Call,
+    Term,
+    GroupSpecificTerm,
+    Intercept,
+    NegatedIntercept,
+    Response,
+)
 from formulae.terms.call_resolver import CallResolver
 
 
@@ -26,17 +34,24 @@ class Resolver:
             return expr.left.accept(self) + expr.right.accept(self)
         elif otype == "MINUS":
             return expr.left.accept(self) - expr.right.accept(self)
-        elif otype == "STAR_STAR":
-            return expr.left.accept(self) ** expr.right.accept(self)
+        left, right = expr.left.accept(self), expr.right.accept(self)
+        for operand in (left, right):
+            # These operators only look at common terms, a group-specific term would be dropped
+            if isinstance(operand, GroupSpecificTerm) or getattr(operand, "group_terms", None):
+                raise TypeError(
+                    f"Operator '{expr.operator.lexeme}' can't be applied to group-specific terms"
+                )
+        if otype == "STAR_STAR":
+            return left**right
         elif otype == "COLON":
             # there is not __colon__ method
-            return expr.left.accept(self) @ expr.right.accept(self)
+            return left @ right
         elif otype == "STAR":
-            return expr.left.accept(self) * expr.right.accept(self)
+            return left * right
         elif otype == "SLASH":
-            return expr.left.accept(self) / expr.right.accept(self)
+            return left / right
         elif otype == "PIPE":
-            return expr.left.accept(self) | expr.right.accept(self)
+            return left | right
         else:  # pragma: no cover
             raise ResolverError("Couldn't resolve BinaryExpr with otype '" + otype + "'")
 
